@@ -19,25 +19,23 @@
    ("expansion") bytes.  Hence the name …_partial; the full statement is [c08_full]. *)
 From Coq Require Import List ZArith NArith Bool.
 From Verif Require Import VM.
-From C08 Require Import Spec Base Control Crypto Proofs.
+From C08 Require Import Spec Base Control Crypto Predicate Proofs.
 Import ListNotations.
 
-(* ---- the full statement (not proved for CHECKPREDICATE) ---- *)
+(* ---- the full statement ---- *)
 
-Definition stacks_of (o : vmerr + obs) : vmerr + (stack * stack) :=
-  match o with inl e => inl e | inr (d, a, _, _, _, _) => inr (d, a) end.
-
-Definition c08_full : Prop :=
+(* Target shape of the complete theorem: the same equation for EVERY opcode byte.  It is
+   proved below for every byte except CHECKPREDICATE (0xc0); for CHECKPREDICATE the stacks
+   and the error class are proved ([c08_checkpredicate_stacks]) but not the gas component:
+   the instruction's charge also contains the child VM's own consumption
+     64 + (limit - child gas left) - memory(child's final stacks) + memory(arguments handed over),
+   which the reference cost table [spec_cost] (entry 192) does not carry; gas accounting
+   across CHECKPREDICATE is the subject of C07. *)
+Definition c08_exec_refines_spec_full : Prop :=
   forall cr cx rc s i, sane s -> ctx_sane cx ->
     parse_op (prog s) (pc s) = inr i -> (i_op i < 256)%N ->
-    (i_op i <> 192%N -> enough_gas cr cx rc i s ->
-       outcome (step cr cx rc s) = spec_instr cr cx rc i s)
-    /\ (i_op i = 192%N ->
-        (* CHECKPREDICATE: stacks and error class; its gas also contains the child's own
-           consumption, which the reference cost table does not describe (see C07) *)
-        (forall c, (0 <= runlimit (snd (rc c)))%Z) ->
-        (256 + size_operand (top0 (dstack s)) <= runlimit s)%Z ->
-        stacks_of (outcome (step cr cx rc s)) = stacks_of (spec_instr cr cx rc i s)).
+    enough_gas cr cx rc i s ->
+    outcome (step cr cx rc s) = spec_instr cr cx rc i s.
 
 (* ---- proved: every opcode class except CHECKPREDICATE ---- *)
 
@@ -53,6 +51,17 @@ Theorem c08_covered_all_but_checkpredicate :
   forall op, (op < 256)%N -> op <> 192%N -> In op covered_ops.
 Proof. exact covered_all_but_192. Qed.
 Print Assumptions c08_covered_all_but_checkpredicate.
+
+(* CHECKPREDICATE: data/alt stacks and error class (error precedence included) agree with the
+   reference; [rc] is the child VM (any function whose result has a non-negative run limit),
+   the hypothesis on the run limit is "base charge 256 plus the explicit child limit" *)
+Theorem c08_checkpredicate_stacks : forall cr cx rc s i,
+  parse_op (prog s) (pc s) = inr i -> i_op i = 192%N ->
+  (forall c, (0 <= runlimit (snd (rc c)))%Z) ->
+  (256 + size_operand (top0 (dstack s)) <= runlimit s)%Z ->
+  stacks_of (outcome (step cr cx rc s)) = stacks_of (spec_instr cr cx rc i s).
+Proof. exact step_checkpredicate_stacks. Qed.
+Print Assumptions c08_checkpredicate_stacks.
 
 (* the bytes treated as undefined by the reference are exactly the model's expansion opcodes *)
 Theorem c08_expansion_set : expansion_ops = filter is_expansion (map N.of_nat (seq 0 256)).
